@@ -123,7 +123,7 @@ def _top_level_jumps(stmts) -> bool:
 # --------------------------------------------------------------------------------------------------------- static loop unrolling
 
 def _literal_seq(node):
-    if isinstance(node, (ast.Tuple, ast.List)) and 1 <= len(node.elts) <= 8 and not any(isinstance(e, ast.Starred) for e in node.elts):
+    if isinstance(node, (ast.Tuple, ast.List)) and 1 <= len(node.elts) <= 24 and not any(isinstance(e, ast.Starred) for e in node.elts):
         return node
     return None
 
